@@ -204,6 +204,9 @@ def bfs(depth_cap):
     maxd = 0
     while frontier:
         hist = frontier.popleft()
+        if transitions > 4000:   # a recorder state that never repeats (e.g. a random attribute) must not unroll for ever
+            BFS_INFO['cap_hit'] = 'transition budget 4000'
+            break
         if len(hist) >= depth_cap:
             BFS_INFO['cap_hit'] = depth_cap
             continue
